@@ -3,6 +3,7 @@ package main
 import (
 	"fmt"
 	"os"
+	"sort"
 	"os/exec"
 	"path/filepath"
 	"regexp"
@@ -427,6 +428,21 @@ func c16Workload(c *Check) []c16Prog {
 	for _, k := range sortedKeys(alone) {
 		out = append(out, c16Prog{key: "alone/" + k, src: map[string]string{"main.tsh": alone[k]}})
 		out = append(out, c16Prog{key: "alone-in-function/" + k, src: map[string]string{"main.tsh": wrapInFunc(alone[k])}})
+	}
+	// user functions and variables whose names BEGIN with the name of a helper routine (the list the linter itself uses): a script without slices, files or commands still contains no helper
+	{
+		helpers := []string{}
+		for h := range batchHelpers {
+			helpers = append(helpers, h)
+		}
+		sort.Strings(helpers)
+		for _, h := range helpers {
+			for si, suffix := range []string{"x", "ule", "2", "_"} {
+				f := h + suffix
+				out = append(out, c16Prog{key: fmt.Sprintf("helper-prefixed-name/function/%s/%d", h, si), src: map[string]string{"main.tsh": "func " + f + "(a int) int {\n\treturn a + 1\n}\nprint(" + f + "(1))\nfor i := 0; i < 2; i++ {\n\tprint(" + f + "(i))\n}\n"}})
+				out = append(out, c16Prog{key: fmt.Sprintf("helper-prefixed-name/void-function/%s/%d", h, si), src: map[string]string{"main.tsh": "func " + f + "() {\n\tprint(1)\n}\n" + f + "()\nif 1 == 1 {\n\t" + f + "()\n}\n"}})
+			}
+		}
 	}
 	// every statement form as the only statement of every kind of block (an expression whose value
 	// is not used may emit nothing, and the block still has to be well formed)
